@@ -134,6 +134,16 @@ def l4(ctx: Ctx):
     from .rules_bank import bank_cuts_comments, cut_comment
 
     cuts_comments = bank_cuts_comments(ctx) is True
+    # one definition per name: of two procedures with one name the bank keeps the one it read last, the callers of the
+    # other are left with a procedure of another interface
+    ctx.ob(
+        "one-definition-per-name",
+        not L.duplicates,
+        "" if not L.duplicates else f"procedure `{L.duplicates[0][0]}` is defined twice in ecb.b09 (lines {L.duplicates[0][1]} and {L.duplicates[0][2]}): the bundle carries only the second, every RUN written for the first now names a procedure with other parameters",
+        file=LIB_REL,
+        line=L.duplicates[0][2] if L.duplicates else 1,
+        props=["C13", "C14"],
+    )
     for p in L.procs.values():
         mine: Dict[int, List[str]] = {}
         for s in L.all_stmts(p):
@@ -645,6 +655,11 @@ def l10(ctx: Ctx):
 @rule("L11", "LIB-BLOCKS: every procedure of the bundled library closes the blocks it opens (IF/ELSE/ENDIF, FOR/NEXT, WHILE/ENDWHILE, LOOP/ENDLOOP, EXITIF/ENDEXIT, REPEAT/UNTIL): the library is emitted verbatim into the user's bundle", ["C07"], floor=50)
 def l11(ctx: Ctx):
     L = b09lib(ctx)
+    # every statement line reads as a whole statement
+    for name, p in sorted(L.procs.items()):
+        bad_ = [m_ for m_ in L.malformed if p.line <= m_[0] and all(not (p.line < q.line <= m_[0]) for q in L.procs.values() if q is not p)]
+        if bad_:
+            ctx.ob(f"{name}:statements", False, f"procedure {name}, line {bad_[0][0]}: `{bad_[0][1][:70]}` is {bad_[0][2]} - the emitted bundle contains a line BASIC09 cannot compile", file=LIB_REL, line=bad_[0][0], props=["C07"])
     for name, p in sorted(L.procs.items()):
         try:
             build_blocks(L, p)
